@@ -11,6 +11,7 @@
 package c14
 
 import (
+	"bytes"
 	"encoding/json"
 	"fmt"
 	"math"
@@ -189,20 +190,69 @@ func (g *docGen) tomlArray(depth int) []any {
 func gen(t *rapid.T) Case {
 	target := rapid.SampledFrom([]string{"yaml", "toml", "jsonl", "csv"}).Draw(t, "target")
 	g := &docGen{t: t, str: strGen(true), key: strGen(true), num: numGen(), depth: 4}
+	// one document in ten is large (tens of KiB serialised)
+	big := rapid.IntRange(0, 9).Draw(t, "big") == 0
 	var doc any
 	switch target {
 	case "yaml":
+		if big {
+			n := rapid.IntRange(150, 500).Draw(t, "bign")
+			a := make([]any, 0, n)
+			for i := 0; i < n; i++ {
+				a = append(a, g.value(2))
+			}
+			doc = a
+			break
+		}
 		if rapid.IntRange(0, 9).Draw(t, "top") == 0 {
 			doc = g.scalar(false)
 		} else {
 			doc = g.value(0)
 		}
 	case "toml":
-		doc = g.tomlMap(0)
+		m := g.tomlMap(0)
+		if big {
+			n := rapid.IntRange(150, 500).Draw(t, "bign")
+			a := make([]any, 0, n)
+			for i := 0; i < n; i++ {
+				a = append(a, g.str.Draw(t, "bigstr"))
+			}
+			m["bigarray"] = a
+		}
+		doc = m
 	case "jsonl":
 		n := rapid.IntRange(0, 6).Draw(t, "n")
+		if big {
+			// several KiB of lines: larger than the 4 KiB buffers of line readers
+			n = rapid.IntRange(400, 1200).Draw(t, "bign")
+		}
 		a := make([]any, 0, n)
+		uniform := big && rapid.Bool().Draw(t, "uniform")
+		suffix := ""
+		if uniform {
+			suffix = g.str.Draw(t, "suffix")
+		}
 		for i := 0; i < n; i++ {
+			if uniform {
+				// every line has the same width
+				a = append(a, fmt.Sprintf("s%05d%s", i, suffix))
+				continue
+			}
+			if big {
+				// strings, numbers and flat maps only: a null or a leading
+				// array would make the whole large document a rejected /
+				// known-finding case
+				switch rapid.IntRange(0, 3).Draw(t, "bigelem") {
+				case 0:
+					a = append(a, map[string]any{"k": g.str.Draw(t, "bigstr"), "n": float64(i)})
+				case 1:
+					a = append(a, float64(rapid.IntRange(-1000000, 1000000).Draw(t, "bignum")))
+				default:
+					// stamped with its position, so every line differs
+					a = append(a, fmt.Sprintf("s%05d%s", i, g.str.Draw(t, "bigstr")))
+				}
+				continue
+			}
 			a = append(a, g.value(1))
 		}
 		doc = a
@@ -227,6 +277,9 @@ func gen(t *rapid.T) Case {
 			heads = append(heads, h)
 		}
 		nrow := rapid.IntRange(1, 5).Draw(t, "nrow")
+		if big {
+			nrow = rapid.IntRange(100, 500).Draw(t, "bigrows")
+		}
 		a := make([]any, 0, nrow)
 		for i := 0; i < nrow; i++ {
 			m := map[string]any{}
@@ -267,6 +320,13 @@ var lastGot struct {
 	v  any
 }
 
+func clip(s string) string {
+	if len(s) > 600 {
+		return s[:600] + "…"
+	}
+	return s
+}
+
 func check(c Case) *core.Violation {
 	lastGot.ok, lastGot.v = false, nil
 	want, err := parse([]byte(c.Doc))
@@ -305,7 +365,21 @@ func check(c Case) *core.Violation {
 	}
 	if r2.Exit != 0 || r2.Err != nil {
 		if clean(r2) {
+			// jsonl is murex's own reader and writer: a text that `format
+			// jsonl` has just produced from a non-empty array must read back.
+			// (An empty array gives an empty text, "no data returned". For the
+			// other targets a refusal on the way back is counted, not judged:
+			// most come from what the yaml / toml libraries write.)
+			if a, ok := want.([]any); c.Target == "jsonl" && ok && len(a) > 0 && len(bytes.TrimSpace(r1.Stdout)) > 0 {
+				return core.Violf("refused-on-return", "json %s\n-> format jsonl gives %q\n-> format json refuses it: %s", clip(c.Doc), clip(string(r1.Stdout)), r2.Stderr)
+			}
 			core.Count("rejected:"+c.Target+":unmarshal", 1)
+			if f := os.Getenv("VERIF_C14_DUMP_REJECTED"); f != "" {
+				if fh, err := os.OpenFile(f, os.O_APPEND|os.O_CREATE|os.O_WRONLY, 0o644); err == nil {
+					fmt.Fprintf(fh, "%s\t%s\t%q\t%q\n", c.Target, c.Doc, r1.Stdout, r2.Stderr)
+					fh.Close()
+				}
+			}
 			return nil
 		}
 		return core.Violf("unclean-failure", "%s -> format json on %q (from %s): exit %d err=%v with no message\nstdout=%q", c.Target, r1.Stdout, c.Doc, r2.Exit, r2.Err, r2.Stdout)
@@ -382,6 +456,11 @@ func classify(c Case) core.Class {
 	depth, sig := 0, false
 	inspect(v, 0, &depth, &sig)
 	cl := core.Class{NonTrivial: sig || depth >= 2}
+	if len(c.Doc) > 8192 {
+		cl.NonTrivial = true
+		cl.Label = c.Target + "/large(>8KiB)"
+		return cl
+	}
 	switch {
 	case sig && depth >= 2:
 		cl.Label = c.Target + "/significant-string,nested"
